@@ -170,7 +170,7 @@ def _corrupt(v, rnd):
 # the fields of each trace's events that carry what the REAL CODE did (the rest describes the input or is
 # informational): the binding self-test corrupts one of these
 OBSERVED = {
-    "C01_Trace": ["records"], "C02_Trace": ["viaparser", "viarecord", "viastruct", "printed"],
+    "C01_Trace": ["records"], "C02_Trace": ["viaparser", "viarecord", "viastruct", "printed", "printed2"],
     "C03_Trace": ["lines", "reparsed", "deterministic", "locsok", "panic"],
     "C04_Trace": ["ha", "hb", "err", "h", "canon"], "C06_Trace": ["p", "splits"], "C07_Trace": ["res", "dna"],
     "C10_Trace": ["frags"], "C11_Trace": ["rc", "comp", "rev", "pal", "rcrc", "rca", "rcb", "rcab", "vars", "varsrc"],
